@@ -107,6 +107,25 @@ class Sem:
         return None
 
 
+def strongest_by_insertion(patt, shading, I):
+    """The semantic formulation for LONG patterns (polynomial).  Only two kinds of sigma matter
+    (see the module docstring): patt itself, where the points outside I hit their cells, and patt
+    with ONE extra point placed in a box (bx, by) that is not shaded - the old points then form
+    an occurrence of (patt, shading) and the extra point lies, in the grid through the chosen
+    points, in column #{i in I : i < bx} and row #{i in I : patt[i] < by}."""
+    I = tuple(sorted(I))
+    n = len(patt)
+    hit = set()
+    for z in range(n):
+        if z not in I:
+            hit.add(R.cell_of(I, patt, z))
+    for bx in range(n + 1):
+        for by in range(n + 1):
+            if (bx, by) not in shading:
+                hit.add((sum(1 for i in I if i < bx), sum(1 for i in I if patt[i] < by)))
+    return frozenset(R.all_cells(len(I))) - hit
+
+
 def mim_expected(qpatt, qshading, ppatt, strongest_of_p):
     """Occurrences of q in p: classical occurrences whose induced (strongest) shading covers q's."""
     return [occ for occ in R.occurrences(qpatt, ppatt) if qshading <= strongest_of_p[occ]]
@@ -125,6 +144,7 @@ def selfcheck(maxk=2, horizon=4):
                     sub, reg = region(p, sh, I)
                     assert sub == R.std([p[i] for i in I])
                     assert reg == a[I] == b[I], (p, sorted(sh), I, sorted(reg), sorted(a[I]), sorted(b[I]))
+                    assert strongest_by_insertion(p, sh, I) == reg, (p, sorted(sh), I)
                     if len(sh) in (0, 1, (k + 1) ** 2 - 1, (k + 1) ** 2):
                         assert strongest_naive(p, sh, I, k + 1) == reg, (p, sorted(sh), I)
                     n_cmp += 1
